@@ -8,7 +8,7 @@ from ..runner import jval
 from ..valgen import Gen, copy_value
 from ..condgen import CondGen
 from ..pathgen import PathGen
-from ..specgen import SpecGen
+from ..specgen import SpecGen, normalise_cond
 from ..describe import describe_cond, Inert0
 from ..ruleterms import enc_arg1, Tags
 from ..terms import valida, Leaf
@@ -118,20 +118,7 @@ def run(tier, seed, model_ok, spec_ok, replay=None):
                         if "list_condition" in kw:
                             kw["list_condition"] = kw["map_condition"] = None
                 l.args[g.r.randrange(len(l.args))] = pa
-        def delist(a):
-            if isinstance(a, (list, tuple)):
-                return [delist(x) for x in a]
-            if isinstance(a, dict):
-                return {k: delist(x) for k, x in a.items()}
-            return a
-        for l in t.leaves():   # specs are JSON/YAML-like: no tuples
-            l.args = [a if isinstance(a, PathT) else delist(a) for a in l.args]
-            l.kwargs = {k: (a if isinstance(a, PathT) else delist(a)) for k, a in l.kwargs.items()}
-        for l in t.leaves():   # a string such as 'int' denotes the type in a spec: keep class arguments real types
-            if l.method in ("is_instance", "keys_is_instance"):
-                l.args = [a if isinstance(a, type) else int for a in l.args]
-        for l in t.leaves():   # NoneType has no type name in the spec language
-            l.args = [int if a is type(None) else ([int if x is type(None) else x for x in a] if isinstance(a, list) else a) for a in l.args]
+        normalise_cond(t)   # specs are JSON/YAML-like: no tuples, named types only (also inside data-path arguments)
         spec = sg.cond_spec(t)
         if spec is None:
             skipped += 1
